@@ -938,6 +938,15 @@ class Engine(object):
         idx = self.eval(node.slice, frame)
         return self.getitem(obj, idx)
 
+    def expr_Slice(self, node, frame):
+        lo = self.eval(node.lower, frame) if node.lower else None
+        hi = self.eval(node.upper, frame) if node.upper else None
+        st = self.eval(node.step, frame) if node.step else None
+        for b in (lo, hi, st):
+            if b is not None and not isinstance(b, int):
+                raise Unsupported('symbolic slice bound')
+        return slice(lo, hi, st)
+
     def expr_ListComp(self, node, frame):
         out = []
         self._comp(node.generators, 0, frame, lambda f: out.append(self.eval(node.elt, f)))
@@ -1176,6 +1185,17 @@ class Engine(object):
         if isinstance(obj, SymStr):
             i = self.index_value(idx, obj.n, 'string')
             return norm_str(SymStr([V.char_at(obj, i)]))
+        if isinstance(obj, NVec) and isinstance(idx, tuple) and len(idx) == 2:
+            r, c = idx
+            rows = obj.items[r] if isinstance(r, slice) else [obj.items[self.index_value(r, len(obj.items), 'array')]]
+            out = []
+            for row in rows:
+                if not isinstance(row, NVec):
+                    raise PyExc('IndexError', 'too many indices for array')
+                out.append(NVec(row.items[c]) if isinstance(c, slice) else row.items[self.index_value(c, len(row.items), 'array')])
+            if isinstance(r, slice):
+                return NVec(out)
+            return out[0]
         if isinstance(obj, NVec):
             i = self.index_value(idx, len(obj.items), 'array')
             if isinstance(i, int):
@@ -1200,6 +1220,19 @@ class Engine(object):
             obj[i] = v
         elif isinstance(obj, dict):
             obj[self.hashable(idx)] = v
+        elif isinstance(obj, NVec) and isinstance(idx, tuple) and len(idx) == 2:
+            r, c = idx
+            if isinstance(r, slice) or not isinstance(c, slice):
+                raise Unsupported('2-D store other than a[i, :] = row')
+            i = self.index_value(r, len(obj.items), 'array')
+            if not isinstance(i, int):
+                raise Unsupported('symbolic index store')
+            vals = self.iterate(v)
+            row = obj.items[i]
+            n = len(row.items[c])
+            if len(vals) != n:
+                raise PyExc('ValueError', 'could not broadcast input array from shape (%d,) into shape (%d,)' % (len(vals), n))
+            row.items[c] = vals
         elif isinstance(obj, NVec):
             i = self.index_value(idx, len(obj.items), 'array')
             if not isinstance(i, int):
